@@ -52,11 +52,18 @@ static std::string hll_stream(std::istream& is, bool use) {
   return accept([&] { return hll_sketch::deserialize(is); }, hll_readout, hll_use, use);
 }
 
-enum Mode { M_EMPTY, M_LIST, M_SET, M_HLL, M_HLL_AUX, M_FULL_EMPTY, M_UNION };
+enum Mode { M_EMPTY, M_LIST, M_SET, M_HLL, M_HLL_AUX, M_FULL_EMPTY, M_UNION, M_BIG_LIST, M_BIG_SET };   // BIG: lg_k 21, tiny content
 
 static hll_sketch hll_state(Rng& r, bool T, int mode, target_hll_type type) {
   uint8_t lg_k = static_cast<uint8_t>(r.range(4, T ? 9 : 8));
   if (mode == M_SET) lg_k = static_cast<uint8_t>(r.range(8, T ? 11 : 9));
+  if (mode == M_BIG_LIST || mode == M_BIG_SET) {
+    // large nominal configuration, tiny content: the count fields of the image are then bounded only by the large configured maximum
+    hll_sketch s(static_cast<uint8_t>(r.range(20, 21)), type);
+    const uint64_t n = mode == M_BIG_LIST ? 1 + r.below(7) : 9 + r.below(40), base = r.next();
+    for (uint64_t i = 0; i < n; ++i) s.update(static_cast<uint64_t>(base + i * UINT64_C(0x9e3779b97f4a7c15)));
+    return s;
+  }
   if (mode == M_FULL_EMPTY) {
     lg_k = static_cast<uint8_t>(r.range(4, 7));
     return hll_sketch(lg_k, type, true);
@@ -100,13 +107,13 @@ static Bytes hll_image(Rng& r, bool T, int mode, target_hll_type type, bool comp
 std::vector<Target> targets() {
   std::vector<Target> t;
   struct { const char* name; int m; } modes[] = {{"empty", M_EMPTY}, {"list", M_LIST}, {"set", M_SET}, {"hll", M_HLL}, {"hll_aux", M_HLL_AUX},
-    {"full_empty", M_FULL_EMPTY}, {"union_result", M_UNION}};
+    {"full_empty", M_FULL_EMPTY}, {"union_result", M_UNION}, {"bigcfg_list", M_BIG_LIST}, {"bigcfg_set", M_BIG_SET}};
   const target_hll_type types[] = {HLL_4, HLL_6, HLL_8};
   const char* tn[] = {"hll4", "hll6", "hll8"};
   // order: mode fastest, so that neighbouring cases differ in mode/type/form
   for (int form = 0; form < 2; ++form) for (int ti = 0; ti < 3; ++ti) for (auto& m : modes) {
     if (m.m == M_HLL_AUX && ti != 0) continue;
-    if ((m.m == M_EMPTY || m.m == M_FULL_EMPTY || m.m == M_UNION) && ti == 1) continue;  // fewer duplicates of type-independent kinds
+    if ((m.m == M_EMPTY || m.m == M_FULL_EMPTY || m.m == M_UNION || m.m == M_BIG_LIST || m.m == M_BIG_SET) && ti == 1) continue;  // fewer duplicates of type-independent kinds
     const int mm = m.m; const target_hll_type ty = types[ti]; const bool compact = form == 0;
     BuildFn b = [mm, ty, compact](Rng& r, bool T) { return hll_image(r, T, mm, ty, compact); };
     const std::string kind = std::string(compact ? "compact_" : "updatable_") + tn[ti] + "_" + m.name;
